@@ -3,13 +3,17 @@
    (AffinePairs.v), i.e. - the model being the code on every case of the
    correspondence, known findings included - the translation / power-of-two
    clause of C12 for the code as it is.  Re-encodings: kernel-checked for the
-   ring attributes, the segment kernels and candidate order.  PARTIAL: reflection
-   and re-encoding invariance of ring-level contains / intersects are checked
-   metamorphically on every run (they fail exactly on the known C03/C12
-   findings). *)
+   ring attributes, the segment kernels and candidate order.  Reflections and
+   transposition (the eight symmetries of the square): proved for point membership
+   in rings and polygons with holes, and for the Intersects answers of ring x
+   segment / line / ring, through the general crossing-parity theorem
+   (Crossing.v: the parity does not depend on the direction of the ray) and the
+   point-set theorems.  PARTIAL: reflection and re-encoding invariance of
+   ring-level contains, and of intersects with holes, are checked metamorphically
+   on every run (they fail exactly on the known C03/C12 findings). *)
 From Coq Require Import Sorting.Permutation.
 From GJ Require Import Base Kernel KernelSpec KernelProofs IntersectsProofs Series SeriesSpec SeriesProofs
-  Ring RingSpec PipProofs PairSpec Pairs Invariance AffinePairs.
+  Ring RingSpec PipProofs PairProofs PairSpec Pairs Invariance AffinePairs Jordan Crossing Mirror MirrorY Symmetry.
 Open Scope Z_scope.
 
 (* translation by (dx,dy) and scaling by k > 0 (k = 2^j in the property) *)
@@ -65,7 +69,89 @@ Theorem C12_closing_vertex : forall vs, vs <> [] -> pt_eqb (last vs pt0) (hd pt0
   ring_vertices (vs ++ [hd pt0 vs]) = vs /\ ring_vertices vs = vs.
 Proof. exact ring_vertices_closing. Qed.
 
+(* ---- reflections and transposition ---- *)
+
+(* the parity of the ray to the right at the two ends of a non-horizontal segment differs by the
+   parity of the edges crossing the segment (half-open rule along it): the count does not depend
+   on the direction of the ray *)
+Theorem C12_crossing_parity : forall ps L H, py L < py H ->
+  on_boundaryb (ring_edges ps) L = false -> on_boundaryb (ring_edges ps) H = false ->
+  xorb (parityb (ring_edges ps) L) (parityb (ring_edges ps) H) = xfold (Xc L H) (ring_edges ps).
+Proof. exact crossing_parity. Qed.
+
+(* point membership, any closed vertex sequence / polygon with holes *)
+Theorem C12_ring_membership_mirror_x : forall ps p allow,
+  rcp_hit (RS {| closed := true; pts := map mir ps |}) (mir p) allow = rcp_hit (RS {| closed := true; pts := ps |}) p allow.
+Proof. exact ring_contains_point_mir. Qed.
+Theorem C12_ring_membership_mirror_y : forall ps p,
+  in_ringb (ring_edges (map my ps)) (my p) = in_ringb (ring_edges ps) p.
+Proof. exact in_ringb_my. Qed.
+Theorem C12_ring_membership_transpose : forall ps p,
+  in_ringb (ring_edges (map tr ps)) (tr p) = in_ringb (ring_edges ps) p.
+Proof. exact in_ringb_tr. Qed.
+Theorem C12_polygon_membership_mirror_x : forall e hs p,
+  poly_contains_point (Pg (map mir e) (map (map mir) hs)) (mir p) = poly_contains_point (Pg e hs) p.
+Proof. exact poly_contains_point_mir. Qed.
+Theorem C12_polygon_membership_mirror_y : forall e hs p,
+  poly_contains_point (Pg (map my e) (map (map my) hs)) (my p) = poly_contains_point (Pg e hs) p.
+Proof. exact poly_contains_point_my. Qed.
+Theorem C12_polygon_membership_transpose : forall e hs p,
+  poly_contains_point (Pg (map tr e) (map (map tr) hs)) (tr p) = poly_contains_point (Pg e hs) p.
+Proof. exact poly_contains_point_tr. Qed.
+
+(* Intersects of ring x segment, ring x line string, ring x ring (polygons without holes) *)
+Theorem C12_ring_segment_intersects_mirror_x : forall ps A B,
+  ring_intersects_segment (RS {| closed := true; pts := map mir ps |}) (mir A, mir B) true =
+  ring_intersects_segment (RS {| closed := true; pts := ps |}) (A, B) true.
+Proof. exact ring_intersects_segment_mir. Qed.
+Theorem C12_ring_line_intersects_mirror_x : forall ps qs,
+  ring_intersects_line (RS {| closed := true; pts := map mir ps |}) (RS {| closed := false; pts := map mir qs |}) true =
+  ring_intersects_line (RS {| closed := true; pts := ps |}) (RS {| closed := false; pts := qs |}) true.
+Proof. exact ring_intersects_line_mir. Qed.
+Theorem C12_ring_ring_intersects_mirror_x : forall ps qs,
+  ring_intersects_ring (RS {| closed := true; pts := map mir ps |}) (RS {| closed := true; pts := map mir qs |}) true =
+  ring_intersects_ring (RS {| closed := true; pts := ps |}) (RS {| closed := true; pts := qs |}) true.
+Proof. exact ring_intersects_ring_mir. Qed.
+Theorem C12_ring_ring_intersects_mirror_y : forall ps qs,
+  ring_intersects_ring (RS {| closed := true; pts := map my ps |}) (RS {| closed := true; pts := map my qs |}) true =
+  ring_intersects_ring (RS {| closed := true; pts := ps |}) (RS {| closed := true; pts := qs |}) true.
+Proof. exact ring_intersects_ring_my. Qed.
+Theorem C12_ring_ring_intersects_transpose : forall ps qs,
+  ring_intersects_ring (RS {| closed := true; pts := map tr ps |}) (RS {| closed := true; pts := map tr qs |}) true =
+  ring_intersects_ring (RS {| closed := true; pts := ps |}) (RS {| closed := true; pts := qs |}) true.
+Proof. exact ring_intersects_ring_tr. Qed.
+Theorem C12_ring_line_intersects_mirror_y : forall ps qs,
+  ring_intersects_line (RS {| closed := true; pts := map my ps |}) (RS {| closed := false; pts := map my qs |}) true =
+  ring_intersects_line (RS {| closed := true; pts := ps |}) (RS {| closed := false; pts := qs |}) true.
+Proof. exact ring_intersects_line_my. Qed.
+Theorem C12_ring_line_intersects_transpose : forall ps qs,
+  ring_intersects_line (RS {| closed := true; pts := map tr ps |}) (RS {| closed := false; pts := map tr qs |}) true =
+  ring_intersects_line (RS {| closed := true; pts := ps |}) (RS {| closed := false; pts := qs |}) true.
+Proof. exact ring_intersects_line_tr. Qed.
+Theorem C12_polygons_without_holes_mirror_y : forall e1 e2,
+  poly_intersects_poly (Pg (map my e1) []) (Pg (map my e2) []) = poly_intersects_poly (Pg e1 []) (Pg e2 []).
+Proof. exact poly_intersects_poly_noholes_my. Qed.
+Theorem C12_polygons_without_holes_transpose : forall e1 e2,
+  poly_intersects_poly (Pg (map tr e1) []) (Pg (map tr e2) []) = poly_intersects_poly (Pg e1 []) (Pg e2 []).
+Proof. exact poly_intersects_poly_noholes_tr. Qed.
+
+(* non-vacuity: an L-shaped ring, a point inside its notch region and one inside it, under the three maps *)
+Example C12_reflection_examples :
+  let ps := [(0,0); (6,0); (6,2); (2,2); (2,6); (0,6); (0,0)] in
+  in_ringb (ring_edges ps) (1, 5) = true /\ in_ringb (ring_edges ps) (4, 4) = false /\
+  in_ringb (ring_edges (map my ps)) (my (1, 5)) = true /\ in_ringb (ring_edges (map tr ps)) (tr (4, 4)) = false /\
+  in_ringb (ring_edges (map mir ps)) (mir (1, 5)) = true.
+Proof. vm_compute. repeat split. Qed.
+
 Print Assumptions C12_raycast_affine.
+Print Assumptions C12_crossing_parity.
+Print Assumptions C12_ring_membership_mirror_x.
+Print Assumptions C12_ring_membership_mirror_y.
+Print Assumptions C12_ring_membership_transpose.
+Print Assumptions C12_polygon_membership_transpose.
+Print Assumptions C12_ring_ring_intersects_mirror_y.
+Print Assumptions C12_ring_ring_intersects_transpose.
+Print Assumptions C12_ring_line_intersects_mirror_y.
 Print Assumptions C12_pair_predicates_translation_scaling.
 Print Assumptions C12_intersects_segment_affine.
 Print Assumptions C12_polygon_membership_affine.
